@@ -42,6 +42,8 @@ UNKNOWN_ELEMENTS = [
     ("deep", lambda known: I.El("zz-unknown", kids=[I.El("a", kids=[I.El("b", attrs=[("k", "v")], kids=["t", I.El(known)]), "tail"])])),
     ("foreign-ns", lambda known: I.El("u:zz", {"u": "urn:unknown-ns"}, kids=[I.El("u:y", kids=["t"])])),
     ("xsi-typed", lambda known: I.El("zz-unknown", {"xsi": XSI, "xs": I.XS}, [("xsi:type", "xs:int")], ["5"])),
+    # an element whose name is a field of the ROOT class, placed where it is not known (nested model, wrapper)
+    ("root-field-name", lambda known: I.El(known, kids=["1"])),
 ]
 UNKNOWN_ATTRS = [
     ("plain", None, ("zz-unknown", "v"), False),
@@ -72,6 +74,16 @@ def class_bound(root: I.El, spec: G.ModelSpec) -> list[I.El]:
             for k in root.kids:
                 if isinstance(k, I.El) and k.local in field_names(f) and not any(a[0] == "xsi:nil" for a in k.attrs):
                     out.append(k)
+        elif f.cat == "union" and "clazz-union" in f.tags:
+            # an element bound to one of several model classes (all with element-only content)
+            for k in root.kids:
+                if isinstance(k, I.El) and k.local in field_names(f) and any(isinstance(c, I.El) for c in k.kids):
+                    out.append(k)
+        if "wrapper" in f.tags:
+            # the wrapper element: only its item element is known inside it
+            for k in root.kids:
+                if isinstance(k, I.El) and k.local.startswith("wrap"):
+                    out.append(k)
     return out
 
 
@@ -79,15 +91,18 @@ def injections(root: I.El, spec: G.ModelSpec) -> list[tuple]:
     out = []
     cb = class_bound(root, spec)
     all_els = list(root.iter())
-    known = next(iter(field_names(spec.fields[0])))
+    plain = [f for f in spec.fields if f.cat in ("element", "model", "union") and "wrapper" not in f.tags]
+    known = next(iter(field_names(plain[-1]))) if plain else "zz-none"
     for e in cb:
         i = all_els.index(e)
         if any(isinstance(k, str) and k.strip() for k in e.kids):
             continue
         for g in range(len(e.kids) + 1):
             for si in range(len(UNKNOWN_ELEMENTS)):
+                if UNKNOWN_ELEMENTS[si][0] == "root-field-name" and (e is root or known == "zz-none"):
+                    continue
                 out.append(("element", i, g, si, known))
-    for e in ([root] + [x for x in cb if x is not root]):
+    for e in ([root] + [x for x in cb if x is not root and not x.local.startswith("wrap")]):
         i = all_els.index(e)
         for ai in range(len(UNKNOWN_ATTRS)):
             out.append(("attribute", i, ai))
@@ -237,6 +252,12 @@ def h_xml(ch: Chooser, vec: list, maxf: int):
                         return bad("lenient-conversion-raised", f"{got[1]!r}")
                     if not warned:
                         return bad("no-ConverterWarning", f"got {got[1]!r}")
+                    # the same document again (same process, fresh parser): it must warn every time
+                    with warnings.catch_warnings(record=True) as wl2:
+                        warnings.simplefilter("always")
+                        again = call(XmlParser(context=ctx, config=cfg, handler=handler).from_string, doc, model.root)
+                    if again[0] == "exc" or not [w for w in wl2 if issubclass(w.category, ConverterWarning)]:
+                        return bad("no-ConverterWarning", f"second parse of the same document in this process: got {again[1]!r} without a warning")
                     exp = replace_leaf(base[1], info["field"], "not-a-value!")
                     if not same(got[1], exp):
                         return bad("value-not-kept-as-given", f"{diff(exp, got[1])}")
@@ -262,7 +283,7 @@ def h_dict(ch: Chooser, vec: list, maxf: int):
         b = call(DictDecoder(context=ctx, config=ParserConfig(fail_on_converter_warnings=True)).decode, data, model.root)
         if b[0] == "exc" or not same(b[1], obj):
             return {"skip": True, "reason": "does not round-trip (C04 subject)"}
-        kinds = ["none", "unknown-key", "unknown-key-dict", "unknown-key-list"]
+        kinds = ["none", "unknown-key", "unknown-key-dict", "unknown-key-list", "unknown-key-null", "unknown-key-nested"]
         corrupt = [f for f in spec.fields if next((t[2:] for t in f.tags if t.startswith("t:")), None) in ("int", "bool", "float", "Decimal", "XmlDate", "Num")
                    and "tokens" not in f.tags and "list" not in f.tags and f.cat in ("element", "attribute") and not spec.elem_gen and not spec.attr_gen
                    and not f.meta.get("name") and "wrapper" not in f.tags]
@@ -278,6 +299,13 @@ def h_dict(ch: Chooser, vec: list, maxf: int):
             d2["zz_unknown"] = {"a": 1, next(iter(data), "x"): [1, 2]}
         elif kind == "unknown-key-list":
             d2["zz_unknown"] = [{"a": 1}, 2]
+        elif kind == "unknown-key-null":
+            d2["zz_unknown"] = None
+        elif kind == "unknown-key-nested":
+            tgt = next((k for k, v in d2.items() if isinstance(v, dict) and "qname" not in v), None)
+            if tgt is None:
+                return {"skip": True, "reason": "no nested object"}
+            d2[tgt] = dict(d2[tgt], zz_unknown=None)
         elif kind.startswith("corrupt:"):
             fname = kind.split(":")[1]
             if fname not in d2 or d2[fname] is None:
@@ -306,6 +334,9 @@ def h_dict(ch: Chooser, vec: list, maxf: int):
                     if not (got[0] == "exc" and isinstance(got[1], ParserError)):
                         return bad("strict-did-not-raise-ParserError", f"got {got[1]!r}")
                 elif got[0] == "exc" or not same(got[1], obj):
+                    if kind == "unknown-key-nested" and got[0] == "exc" and isinstance(got[1], ParserError) and "Failed to bind object with properties(" in str(got[1]) and "zz_unknown" in str(got[1]):
+                        return dict(ok=False, case={**case, "route": route}, bucket="KF/lenient-dict-decoding-rejects-unknown-keys-in-best-match-objects",
+                                    detail=f"[{flagstr}] {got[1]!r}\n{d2!r}")
                     return bad("lenient-affected", f"{got[1]!r}")
             else:
                 fname = kind.split(":")[1]
@@ -317,6 +348,11 @@ def h_dict(ch: Chooser, vec: list, maxf: int):
                         return bad("lenient-conversion-raised", f"{got[1]!r}")
                     if not warned:
                         return bad("no-ConverterWarning", f"{got[1]!r}")
+                    with warnings.catch_warnings(record=True) as wl2:
+                        warnings.simplefilter("always")
+                        call(DictDecoder(context=ctx, config=cfg).decode, d2, model.root)
+                    if not [w for w in wl2 if issubclass(w.category, ConverterWarning)]:
+                        return bad("no-ConverterWarning", f"second decode of the same data in this process gave no warning: {got[1]!r}")
                     exp = replace_leaf(obj, fname, "not-a-value!")
                     if not same(got[1], exp):
                         return bad("value-not-kept-as-given", diff(exp, got[1]))
